@@ -123,12 +123,13 @@ inline rc::Gen<FrameHistory> genFrameHistory(const HistoryGenParams& params)
             f.msgType = *rc::gen::weightedElement<uint8_t>({{8, 1}, {1, 3}, {1, 2}, {1, 0xFF}});
             f.seq = s.nextSeq;
             // shapes: 0 unsegmented, 1 first, 2 matching intermediary, 3 matching last, 4 mismatching continuation,
-            // 5 invalid message, 6 TECMP, 7 short buffer, 8 header-only, 9 garbage, 10 mixed (unsegmented + segment)
+            // 5 invalid message, 6 TECMP, 7 short buffer, 8 header-only, 9 garbage, 10 mixed (unsegmented + segment + more),
+            // 11 aggregated frame that ends with a segment: unsegmented message(s), then a segment that would fit the open message
             int shape = big ? *rc::gen::weightedElement<int>({{1, 0}, {4, 1}, {9, 2}, {4, 3}, {1, 4}, {1, 5}})
                             : *rc::gen::weightedElement<int>({{4, 0}, {5, 1}, {5, 2}, {5, 3}, {3, 4}, {3, 5},
                                                         {size_t(params.allowTecmp), 6}, {1, 7},
                                                         {size_t(params.allowHeaderOnly), 8},
-                                                        {size_t(params.allowGarbage), 9}, {size_t(params.allowGarbage), 10}});
+                                                        {size_t(params.allowGarbage), 9}, {size_t(params.allowGarbage), 10}, {2, 11}});
             bool advance = true;
             switch (shape)
             {
@@ -215,6 +216,28 @@ inline rc::Gen<FrameHistory> genFrameHistory(const HistoryGenParams& params)
                     f.raw[3] = static_cast<uint8_t>(f.dev);
                     f.raw[5] = f.stream;
                     s.open = false;
+                    break;
+                }
+                case 11:
+                {
+                    // the unsegmented messages supersede the open message; the segment behind them (same frame, hence the counter
+                    // the open message expects) must then find nothing to continue
+                    if (s.open)
+                    {
+                        f.version = s.version;
+                        f.msgType = s.msgType;
+                    }
+                    int k = *range<int>(1, 2);
+                    for (int j = 0; j < k; ++j)
+                        f.msgs.push_back(genMsg(0, params.maxSegLen));
+                    uint8_t seg = *rc::gen::weightedElement<uint8_t>({{3, 2}, {3, 3}, {1, 1}});
+                    f.msgs.push_back(genMsg(seg, params.maxSegLen));
+                    s.open = seg == 1;
+                    if (seg == 1)
+                    {
+                        s.version = f.version;
+                        s.msgType = f.msgType;
+                    }
                     break;
                 }
                 case 10:
